@@ -83,6 +83,11 @@ class StopFault(StopIteration):
     the callback in an iterator pipeline (`set(filter(...))`, a generator expression) swallows or converts it"""
 
 
+class Interrupt(BaseException):
+    """an exception that is NOT an `Exception` (KeyboardInterrupt / SystemExit style) raised by a constructor:
+    code that cleans up after a failed construction in `except Exception` misses it"""
+
+
 class NotAVertex:
     """an object that is not a Vertex (ill-typed constructor argument)"""
 
